@@ -1,3 +1,633 @@
 package main
 
-func runClassFile() {}
+import (
+	"fmt"
+	"go/ast"
+	goparser "go/parser"
+	"go/token"
+	"go/types"
+	"strings"
+	"sync"
+	"time"
+
+	"github.com/goplus/gogen/packages"
+
+	"verifharness/hlib"
+	"verifharness/xgolib"
+)
+
+// C11 -- normal .gox class file = explicit struct.  A case of specs/sem2/ClassFile.tla:
+//
+//	fields    field types in order (field i is named f<i> / F<i>)
+//	grouping  lines | merged | single ; block = the var block as specs [names (field indices), type]
+//	methods   template names in declaration order
+//	twin      the model's explicit-struct twin: fields [ix,type], methods [name,params,results,recv]
+//	out       expected driver output: lines [tag, vals [t,v]]
+type cfVal struct {
+	T string `json:"t"`
+	V any    `json:"v"`
+}
+type cfCase struct {
+	Fields   []string `json:"fields"`
+	Grouping string   `json:"grouping"`
+	Exported bool     `json:"exported"`
+	Methods  []string `json:"methods"`
+	Block    []struct {
+		Names []int  `json:"names"`
+		Type  string `json:"type"`
+	} `json:"block"`
+	Twin struct {
+		Fields []struct {
+			Ix   int    `json:"ix"`
+			Type string `json:"type"`
+		} `json:"fields"`
+		Methods []struct {
+			Name    string   `json:"name"`
+			Params  []string `json:"params"`
+			Results []string `json:"results"`
+			Recv    string   `json:"recv"`
+		} `json:"methods"`
+	} `json:"twin"`
+	Out []struct {
+		Tag  string  `json:"tag"`
+		Vals []cfVal `json:"vals"`
+	} `json:"out"`
+}
+
+func (c *cfCase) cls(idx int) string { return fmt.Sprintf("C%d", idx) }
+func (c *cfCase) fname(i int) string {
+	if c.Exported {
+		return fmt.Sprintf("F%d", i)
+	}
+	return fmt.Sprintf("f%d", i)
+}
+func (c *cfCase) mname(m string) string {
+	if c.Exported {
+		return strings.ToUpper(m[:1]) + m[1:]
+	}
+	return m
+}
+func (c *cfCase) has(m string) bool {
+	for _, x := range c.Methods {
+		if x == m {
+			return true
+		}
+	}
+	return false
+}
+
+func cfGoType(t, cls string) string {
+	switch t {
+	case "ints":
+		return "[]int"
+	case "smap":
+		return "map[string]int"
+	case "ptr":
+		return "*" + cls
+	}
+	return t
+}
+
+// methodsText renders the methods; q prefixes field and method names ("" in the class file,
+// "this." in the twin), recv is the receiver clause ("" in the class file).
+func (c *cfCase) methodsText(idx int, q, recv string) string {
+	var sb strings.Builder
+	cls := c.cls(idx)
+	w := func(f string, a ...any) { fmt.Fprintf(&sb, f, a...) }
+	terms := func() string {
+		s := "0"
+		for i, t := range c.Fields {
+			f := q + c.fname(i+1)
+			switch t {
+			case "int":
+				s += " + " + f
+			case "string", "ints":
+				s += " + len(" + f + ")"
+			case "float64":
+				s += " + int(" + f + ")"
+			case "bool":
+				s += " + b2i(" + f + ")"
+			case "smap":
+				s += " + " + f + `["k"]`
+			case "ptr":
+				s += " + b2i(" + f + " != nil)"
+			}
+		}
+		return s
+	}
+	call := func(m, args string) string { return q + c.mname(m) + "(" + args + ")" }
+	sumOr := func(alt string) string {
+		if c.has("sum") {
+			return call("sum", "")
+		}
+		return alt
+	}
+	for _, m := range c.Methods {
+		switch m {
+		case "sum":
+			w("func %s%s() int {\n\treturn %s\n}\n\n", recv, c.mname(m), terms())
+		case "bump":
+			w("func %s%s(x int) {\n", recv, c.mname(m))
+			for i, t := range c.Fields {
+				f := q + c.fname(i+1)
+				switch t {
+				case "int":
+					w("\t%s += x\n", f)
+				case "string":
+					w("\t%s += \"x\"\n", f)
+				case "float64":
+					w("\t%s += float64(x) * 2\n", f)
+				case "bool":
+					w("\t%s = !%s\n", f, f)
+				case "ints":
+					w("\t%s = append(%s, x)\n", f, f)
+				case "smap":
+					w("\t%s = map[string]int{\"k\": x}\n", f)
+				case "ptr":
+					w("\t%s = this\n", f)
+				}
+			}
+			w("}\n\n")
+		case "pair":
+			w("func %s%s(x int, y string) (int, string) {\n", recv, c.mname(m))
+			if c.has("bump") {
+				w("\t%s\n", call("bump", "x"))
+			}
+			for i, t := range c.Fields {
+				if t == "string" {
+					w("\t%s = y\n", q+c.fname(i+1))
+				}
+			}
+			w("\treturn %s, y\n}\n\n", sumOr("x"))
+		case "flag":
+			w("func %s%s() (bool, int) {\n\treturn %s > 3, %d\n}\n\n", recv, c.mname(m), terms(), len(c.Fields))
+		case "reset":
+			w("func %s%s() {\n", recv, c.mname(m))
+			for i, t := range c.Fields {
+				z := map[string]string{"int": "0", "float64": "0", "string": `""`, "bool": "false", "ints": "nil", "smap": "nil", "ptr": "nil"}[t]
+				w("\t%s = %s\n", q+c.fname(i+1), z)
+			}
+			w("}\n\n")
+		case "twice":
+			w("func %s%s(x int) int {\n", recv, c.mname(m))
+			if c.has("bump") {
+				w("\t%s\n\t%s\n", call("bump", "x"), call("bump", "x"))
+			}
+			w("\treturn %s\n}\n\n", sumOr("x"))
+		}
+	}
+	_ = cls
+	return sb.String()
+}
+
+// classFile renders C<idx>.gox.
+func (c *cfCase) classFile(idx int) string {
+	var sb strings.Builder
+	cls := c.cls(idx)
+	spec := func(names []int, t string) string {
+		var ns []string
+		for _, n := range names {
+			ns = append(ns, c.fname(n))
+		}
+		return strings.Join(ns, ", ") + " " + cfGoType(t, cls)
+	}
+	if c.Grouping == "single" {
+		sb.WriteString("var " + spec(c.Block[0].Names, c.Block[0].Type) + "\n\n")
+	} else {
+		sb.WriteString("var (\n")
+		for _, b := range c.Block {
+			sb.WriteString("\t" + spec(b.Names, b.Type) + "\n")
+		}
+		sb.WriteString(")\n\n")
+	}
+	sb.WriteString(c.methodsText(idx, "", ""))
+	return sb.String()
+}
+
+// twinText renders the explicit struct + pointer-receiver methods (Go syntax), from the MODEL's twin.
+func (c *cfCase) twinText(idx int) string {
+	var sb strings.Builder
+	cls := c.cls(idx)
+	fmt.Fprintf(&sb, "type %s struct {\n", cls)
+	for _, f := range c.Twin.Fields {
+		fmt.Fprintf(&sb, "\t%s %s\n", c.fname(f.Ix), cfGoType(f.Type, cls))
+	}
+	sb.WriteString("}\n\n")
+	sb.WriteString(c.methodsText(idx, "this.", "(this *"+cls+") "))
+	return sb.String()
+}
+
+// driver renders func case<idx>() (Go syntax; identical text for class, XGo twin and Go twin).
+func (c *cfCase) driver(idx int) string {
+	var sb strings.Builder
+	cls := c.cls(idx)
+	w := func(f string, a ...any) { fmt.Fprintf(&sb, f, a...) }
+	w("func case%d() {\n\tdefer func() {\n\t\tif e := recover(); e != nil {\n\t\t\tfmt.Println(\"panic\", e)\n\t\t}\n\t}()\n\tfmt.Println(\"#%d\")\n", idx, idx)
+	var inits []string
+	for i, t := range c.Fields {
+		n := i + 1
+		switch t {
+		case "int", "float64":
+			inits = append(inits, fmt.Sprint(n))
+		case "string":
+			inits = append(inits, `"s"`)
+		case "bool":
+			inits = append(inits, fmt.Sprint(n%2 == 1))
+		case "ints":
+			inits = append(inits, fmt.Sprintf("[]int{%d}", n))
+		default:
+			inits = append(inits, "nil")
+		}
+	}
+	w("\to := &%s{%s}\n", cls, strings.Join(inits, ", "))
+	for pass := 1; pass <= 2; pass++ {
+		x := pass + 1
+		for _, m := range c.Methods {
+			mn := c.mname(m)
+			switch m {
+			case "sum":
+				w("\tfmt.Println(%q, o.%s())\n", m, mn)
+			case "bump":
+				w("\to.%s(%d)\n\tfmt.Println(%q)\n", mn, x, m)
+			case "pair":
+				w("\t{\n\t\tr1, r2 := o.%s(%d, \"ab\")\n\t\tfmt.Println(%q, r1, r2)\n\t}\n", mn, x, m)
+			case "flag":
+				w("\t{\n\t\tr1, r2 := o.%s()\n\t\tfmt.Println(%q, r1, r2)\n\t}\n", mn, m)
+			case "reset":
+				w("\to.%s()\n\tfmt.Println(%q)\n", mn, m)
+			case "twice":
+				w("\tfmt.Println(%q, o.%s(%d))\n", m, mn, x)
+			}
+		}
+		for i, t := range c.Fields {
+			f := "o." + c.fname(i+1)
+			if t == "ptr" {
+				f += " == o"
+			}
+			w("\tfmt.Println(\"field\", %d, %s)\n", i+1, f)
+		}
+	}
+	w("}\n\n")
+	return sb.String()
+}
+
+const cfHelper = "func b2i(b bool) int {\n\tif b {\n\t\treturn 1\n\t}\n\treturn 0\n}\n\n"
+
+// expected renders the model's output lines the way fmt.Println prints them.
+func (c *cfCase) expected() []string {
+	var lines []string
+	for _, l := range c.Out {
+		parts := []string{l.Tag}
+		for _, v := range l.Vals {
+			parts = append(parts, cfFormat(v))
+		}
+		lines = append(lines, strings.TrimRight(strings.Join(parts, " "), " "))
+	}
+	return lines
+}
+
+func cfFormat(v cfVal) string {
+	list := func() []string {
+		var r []string
+		if a, ok := v.V.([]any); ok {
+			for _, e := range a {
+				switch x := e.(type) {
+				case float64:
+					r = append(r, fmt.Sprint(int(x)))
+				case string:
+					r = append(r, x)
+				}
+			}
+		}
+		return r
+	}
+	switch v.T {
+	case "int", "float64":
+		if f, ok := v.V.(float64); ok {
+			return fmt.Sprint(int(f))
+		}
+	case "bool", "ptr":
+		return fmt.Sprint(v.V)
+	case "string":
+		return strings.Join(list(), "")
+	case "ints":
+		return "[" + strings.Join(list(), " ") + "]"
+	case "smap":
+		l := list()
+		if len(l) == 0 {
+			return "map[]"
+		}
+		return "map[k:" + l[0] + "]"
+	}
+	return fmt.Sprintf("?%v", v.V)
+}
+
+// ---------------------------------------------------------------- go/types view of the generated Go
+
+var (
+	cfImpOnce sync.Once
+	cfImp     types.Importer
+	cfFset    = token.NewFileSet()
+)
+
+type cfShape struct {
+	Fields  []string // "name type"
+	Methods []string // "name(params)(results) recv=<ptr|val>:<name>"
+	Err     string
+}
+
+func cfTypesView(gosrc, cls string) cfShape {
+	cfImpOnce.Do(func() { cfImp = packages.NewImporter(cfFset) })
+	f, err := goparser.ParseFile(cfFset, "gen.go", gosrc, 0)
+	if err != nil {
+		return cfShape{Err: "parse: " + err.Error()}
+	}
+	conf := types.Config{Importer: cfImp, Error: func(error) {}}
+	pkg, _ := conf.Check("main", cfFset, []*ast.File{f}, nil)
+	if pkg == nil {
+		return cfShape{Err: "type check produced no package"}
+	}
+	obj := pkg.Scope().Lookup(cls)
+	if obj == nil {
+		return cfShape{Err: "type " + cls + " not found"}
+	}
+	named, ok := obj.Type().(*types.Named)
+	if !ok {
+		return cfShape{Err: cls + " is not a named type"}
+	}
+	st, ok := named.Underlying().(*types.Struct)
+	if !ok {
+		return cfShape{Err: cls + " is not a struct"}
+	}
+	q := func(*types.Package) string { return "" }
+	var sh cfShape
+	for i := 0; i < st.NumFields(); i++ {
+		fl := st.Field(i)
+		e := ""
+		if fl.Embedded() {
+			e = " embedded"
+		}
+		sh.Fields = append(sh.Fields, fl.Name()+" "+types.TypeString(fl.Type(), q)+e)
+	}
+	for i := 0; i < named.NumMethods(); i++ {
+		m := named.Method(i)
+		sig := m.Type().(*types.Signature)
+		recv := "val"
+		if _, isPtr := sig.Recv().Type().(*types.Pointer); isPtr {
+			recv = "ptr"
+		}
+		sh.Methods = append(sh.Methods, fmt.Sprintf("%s%s%s recv=%s:%s", m.Name(),
+			types.TypeString(sig.Params(), q), types.TypeString(sig.Results(), q), recv, sig.Recv().Name()))
+	}
+	return sh
+}
+
+// wantShape is the model's twin rendered the same way.
+func (c *cfCase) wantShape(idx int) cfShape {
+	cls := c.cls(idx)
+	var sh cfShape
+	for _, f := range c.Twin.Fields {
+		sh.Fields = append(sh.Fields, c.fname(f.Ix)+" "+cfGoType(f.Type, cls))
+	}
+	tuple := func(ts []string, names []string) string {
+		var ps []string
+		for i, t := range ts {
+			if names != nil {
+				ps = append(ps, names[i]+" "+t)
+			} else {
+				ps = append(ps, t)
+			}
+		}
+		return "(" + strings.Join(ps, ", ") + ")"
+	}
+	for _, m := range c.Twin.Methods {
+		recv := "val"
+		if m.Recv == "ptr-this" {
+			recv = "ptr"
+		}
+		sh.Methods = append(sh.Methods, fmt.Sprintf("%s%s%s recv=%s:this", c.mname(m.Name),
+			tuple(m.Params, []string{"x", "y"}[:len(m.Params)]), tuple(m.Results, nil), recv))
+	}
+	return sh
+}
+
+func runClassFile() {
+	cases := hlib.ReadAllCases[cfCase]()
+	n := len(cases)
+	mk := func() []*unit {
+		us := make([]*unit, n)
+		for i := range us {
+			us[i] = &unit{Idx: i}
+		}
+		return us
+	}
+	ua, ub, uc := mk(), mk(), mk()
+	for i := range cases {
+		c := &cases[i]
+		ua[i].Extra = map[string]string{c.cls(i) + ".gox": c.classFile(i)}
+		ua[i].Decls = c.driver(i)
+		ub[i].Decls = c.twinText(i) + c.driver(i)
+		uc[i].Decls = ub[i].Decls
+	}
+	header := "package main\n\nimport \"fmt\"\n\n" + cfHelper
+	composeGo := func(b []*unit) string {
+		var sb strings.Builder
+		sb.WriteString(header)
+		for _, u := range b {
+			sb.WriteString(u.Decls)
+		}
+		sb.WriteString("func main() {\n")
+		for _, u := range b {
+			fmt.Fprintf(&sb, "\tcase%d()\n", u.Idx)
+		}
+		sb.WriteString("}\n")
+		return sb.String()
+	}
+	specA := batchSpec{Parse: splitOutput, Compose: func(b []*unit) map[string]string {
+		files := map[string]string{"main.xgo": composeGo(b)}
+		for _, u := range b {
+			for k, v := range u.Extra {
+				files[k] = v
+			}
+		}
+		return files
+	}}
+	specB := batchSpec{Parse: splitOutput, Compose: func(b []*unit) map[string]string {
+		return map[string]string{"twin.xgo": composeGo(b)}
+	}}
+	specC := batchSpec{Parse: splitOutput, PlainGo: true, Compose: func(b []*unit) map[string]string {
+		return map[string]string{"main.go": composeGo(b)}
+	}}
+	opt := xgolib.Options{NoFileLine: true}
+	t0 := time.Now()
+	soloCompileSpec(ua, opt, specA)
+	soloCompileSpec(ub, opt, specB)
+	fmt.Fprintf(errOut, "classfile: 2x%d units compiled alone in %.1fs\n", n, time.Since(t0).Seconds())
+	okOf := func(us []*unit) []*unit {
+		var r []*unit
+		for _, u := range us {
+			if u.SoloErr == "" {
+				r = append(r, u)
+			}
+		}
+		return r
+	}
+	t0 = time.Now()
+	size := 150
+	outA := runBatchesSpec(okOf(ua), size, opt, 8, specA)
+	outB := runBatchesSpec(okOf(ub), size, opt, 8, specB)
+	outC := runBatchesSpec(uc, size, opt, 8, specC)
+	fmt.Fprintf(errOut, "classfile: batches run in %.1fs\n", time.Since(t0).Seconds())
+
+	for i := range cases {
+		c := &cases[i]
+		res := hlib.Result{Idx: i, V: "ok",
+			Input: map[string]any{"class": c.classFile(i), "fields": c.Fields, "grouping": c.Grouping, "methods": c.Methods, "exported": c.Exported},
+			NT:    fmt.Sprintf("%v/%s/%v/%v", c.Fields, c.Grouping, c.Methods, c.Exported)}
+		shapeKey := strings.Join(c.Methods, ",")
+		rank := 0
+		set := func(r int, v, sig, detail string) {
+			if r > rank {
+				rank, res.V, res.Sig, res.Detail = r, v, sig, detail
+			}
+		}
+		text := "--- " + c.cls(i) + ".gox\n" + c.classFile(i) + "--- driver\n" + c.driver(i)
+		want := c.expected()
+		wantS := strings.Join(want, "\n")
+		get := func(us []*unit, outs map[int]*batchOutcome, what string) (string, bool) {
+			u := us[i]
+			if u.SoloErr != "" {
+				return "", false
+			}
+			o := outs[i]
+			if o == nil || o.XgoErr != "" {
+				fmt.Fprintf(errOut, "case %d (%s) compiled alone but not in a batch: %+v\n", i, what, o)
+				exitCode = 3
+				return "", false
+			}
+			if o.BuildErr != "" {
+				return "BUILD: " + o.BuildErr, true
+			}
+			var ls []string
+			for _, l := range o.Lines {
+				ls = append(ls, strings.TrimRight(l, " "))
+			}
+			return strings.Join(ls, "\n"), true
+		}
+		a, okA := get(ua, outA, "class")
+		b, okB := get(ub, outB, "xgo twin")
+		g, okC := get(uc, outC, "go twin")
+		switch {
+		case !okC || strings.HasPrefix(g, "BUILD: "):
+			// the twin must be valid Go by construction: a harness/model problem, never a verdict
+			fmt.Fprintf(errOut, "case %d: the Go twin does not build: %.500s\n%s", i, g, uc[i].Decls)
+			exitCode = 3
+			continue
+		case !okA:
+			set(9, "viol", "compile-fail:class", "the class-file project does not compile: "+ua[i].SoloErr+"\n"+text)
+		case strings.HasPrefix(a, "BUILD: "):
+			set(9, "viol", "gobuild-fail:class", fmt.Sprintf("generated Go of the class-file project does not build: %.600s\n%s", a, text))
+		}
+		if rank == 0 {
+			// (1) go/types view of the generated type vs the model's twin
+			got := cfTypesView(ua[i].GoSolo, c.cls(i))
+			wsh := c.wantShape(i)
+			if got.Err != "" {
+				fmt.Fprintf(errOut, "case %d: go/types view failed: %s\n", i, got.Err)
+				exitCode = 3
+				continue
+			}
+			if strings.Join(got.Fields, ";") != strings.Join(wsh.Fields, ";") {
+				kind := "differs"
+				if len(got.Fields) != len(wsh.Fields) {
+					kind = "count"
+				} else if sameSet(got.Fields, wsh.Fields) {
+					kind = "order"
+				}
+				set(8, "viol", "fields:"+kind, fmt.Sprintf("generated struct has fields %q, the var block declares %q\n%s", got.Fields, wsh.Fields, text))
+			}
+			gm := map[string]string{}
+			for _, m := range got.Methods {
+				gm[strings.SplitN(m, "(", 2)[0]] = m
+			}
+			for k, m := range wsh.Methods {
+				name := strings.SplitN(m, "(", 2)[0]
+				tmpl := c.Methods[k]
+				g1, found := gm[name]
+				switch {
+				case !found:
+					set(7, "viol", "method-missing:"+tmpl, fmt.Sprintf("method %s missing on the generated type: %q\n%s", name, got.Methods, text))
+				case g1 != m:
+					kind := "signature"
+					if strings.Contains(g1, "recv=val") {
+						kind = "value-receiver"
+					} else if !strings.HasSuffix(g1, ":this") {
+						kind = "receiver-name"
+					}
+					set(7, "viol", "method-"+kind+":"+tmpl, fmt.Sprintf("generated method %q, expected %q\n%s", g1, m, text))
+				}
+				delete(gm, name)
+			}
+			if len(gm) > 0 {
+				set(6, "viol", "method-extra", fmt.Sprintf("generated type has extra methods %v\n%s", gm, text))
+			}
+			// (2) behaviour: class project vs Go twin (the property), XGo twin and model as further voters
+			switch {
+			case a != g:
+				set(5, "viol", "behaviour:class-vs-go-twin:"+firstDiffTag(a, g), fmt.Sprintf("class-file program printed\n%s\nexplicit-struct twin (Go tool chain) printed\n%s\n%s", a, g, text))
+			case okB && a != b:
+				set(4, "viol", "behaviour:class-vs-xgo-twin:"+firstDiffTag(a, b), fmt.Sprintf("class-file program printed\n%s\nexplicit-struct twin compiled by XGo printed\n%s\n%s", a, b, text))
+			case !okB:
+				set(2, "drift", "xgo-twin-compile-fail", "the explicit-struct twin (Go syntax) is rejected by XGo: "+ub[i].SoloErr)
+			case g != wantS:
+				// class, XGo twin and Go twin agree with each other but not with the model: model bug
+				fmt.Fprintf(errOut, "case %d: all three programs print\n%s\nbut the model expects\n%s\n%s", i, g, wantS, text)
+				exitCode = 3
+				continue
+			}
+		}
+		if res.V == "ok" {
+			res.Detail = fmt.Sprintf("fields/methods as modelled (%s); %d output lines equal in class project, XGo twin, Go twin and model", shapeKey, len(want))
+		}
+		hlib.Emit(res)
+	}
+	emitSummary()
+}
+
+func sameSet(a, b []string) bool {
+	m := map[string]int{}
+	for _, x := range a {
+		m[x]++
+	}
+	for _, x := range b {
+		m[x]--
+	}
+	for _, v := range m {
+		if v != 0 {
+			return false
+		}
+	}
+	return true
+}
+
+// firstDiffTag names the first output line (by its tag) on which two outputs differ.
+func firstDiffTag(a, b string) string {
+	la, lb := strings.Split(a, "\n"), strings.Split(b, "\n")
+	for i := 0; i < len(la) || i < len(lb); i++ {
+		var x, y string
+		if i < len(la) {
+			x = la[i]
+		}
+		if i < len(lb) {
+			y = lb[i]
+		}
+		if x != y {
+			t := x
+			if t == "" {
+				t = y
+			}
+			return strings.SplitN(t, " ", 2)[0]
+		}
+	}
+	return "none"
+}
